@@ -272,7 +272,7 @@ def _plot_contour(case, ctx, rng):
         ctx.check("c20.plot-sample", any(o.shape == ws.shape and np.array_equal(o, ws) for o in colls), "the sample scatter is not the supplied sample", **info)
     if case["dc"] == "array":
         ctx.check("c20.plot-design-conditions", any(o.shape == dc.shape and np.array_equal(o, dc) for o in colls), "the design-condition scatter is not the supplied array", **info)
-        ctx.check("c20.plot-returns-design-conditions", isinstance(out, tuple) and np.array_equal(np.asarray(out[1]), dc), "plot_2D_contour does not return the supplied design conditions", **info)
+        ctx.count("c20.plot-returned-design-conditions" if (isinstance(out, tuple) and np.array_equal(np.asarray(out[1]), dc)) else "c20.plot-did-not-return-design-conditions(not-judged)")
     elif case["dc"] == "true":
         with M.quiet():
             try:
